@@ -24,6 +24,7 @@ type Prog struct {
 	Point   PointSpec
 	Capture bool // compare standard output too
 	Extract bool // grok/add_pattern load-time scoping + extraction builtins in the reference
+	Polls   int  // poll cap of the real run (0 = realPollCap); longer loops need more
 }
 
 // PointSpec is an input point in harness terms (usable for both sides).
@@ -140,6 +141,9 @@ func runRef(p *Prog, v2 bool, bits uint) (*ref.World, *ref.Point, *ref.RErr, int
 	w := ref.NewWorld()
 	w.V2 = v2
 	w.MaxSteps = refStepCap
+	if p.Polls > 0 {
+		w.MaxSteps = p.Polls * 40
+	}
 	ref.StdBuiltins(w)
 	for name, s := range p.Scripts {
 		w.Scripts[name] = s
@@ -200,7 +204,11 @@ func Differential(p *Prog) Verdict {
 	}
 	sc := loaded[p.Main]
 	pt := p.Point.real().Build()
-	sig := &drv.Sig{FireAt: realPollCap}
+	pollCap := realPollCap
+	if p.Polls > 0 {
+		pollCap = p.Polls
+	}
+	sig := &drv.Sig{FireAt: pollCap}
 	var res drv.Result
 	if p.Capture {
 		res = drv.RunCapture(sc, pt, sig)
@@ -214,7 +222,7 @@ func Differential(p *Prog) Verdict {
 		v.Outcome = "panic"
 		return v
 	}
-	canceled := sig.N >= realPollCap
+	canceled := sig.N >= pollCap
 	if p.Extract {
 		res.Point = failureNoteRe.ReplaceAllString(res.Point, `"pl_msg"=s:"time convert failed"`)
 		v.Real.Point = res.Point
